@@ -21,7 +21,22 @@ pub struct LintStats {
     pub tables: u64,
 }
 
+/// A symbol every assembler in question accepts: `[A-Za-z_.$][A-Za-z0-9_.$]*`.
+fn well_formed_symbol(l: &str) -> bool {
+    let mut cs = l.chars();
+    match cs.next() {
+        Some(c) if c.is_ascii_alphabetic() || c == '_' || c == '.' || c == '$' => {}
+        _ => return false,
+    }
+    cs.all(|c| c.is_ascii_alphanumeric() || c == '_' || c == '.' || c == '$')
+}
+
 fn check_labels(defined: &HashMap<String, usize>, dups: &[String], referenced: &[(String, String)], externs: &[String], out: &mut Vec<Problem>) {
+    let mut bad: Vec<&String> = defined.keys().filter(|l| !well_formed_symbol(l)).collect();
+    bad.sort();
+    for l in bad.into_iter().take(3) {
+        out.push(p("ill-formed-label", format!("label `{l}` is not a symbol the assembler accepts")));
+    }
     for d in dups {
         out.push(p("duplicate-label", format!("label `{d}` is defined more than once")));
     }
